@@ -348,8 +348,20 @@ class C08Session(Session):
         self._field(op)
         self.history.append(op)
 
+    @staticmethod
+    def _without_new_private(ref, snap):
+        """The property is about the state an object *has* (paths, geometry, excitation, pixels, links, style).
+        A private attribute that did not exist before the call (a memo the library may decide to keep) is not
+        that state: it is left out of the comparison.  Everything that existed before must still be there."""
+        if len(ref["objs"]) != len(snap["objs"]):
+            return snap
+        objs = []
+        for a, b in zip(ref["objs"], snap["objs"]):
+            objs.append({k: v for k, v in b.items() if k in a or not k.startswith("_")})
+        return {**snap, "objs": objs}
+
     def _compare(self, world, pre, data, what, op, var, outcome):
-        post = snap_world(world, extra=data, strict_style=True)
+        post = self._without_new_private(pre, snap_world(world, extra=data, strict_style=True))
         if post != pre:
             path = first_diff(pre, post)
             raise Violation(
@@ -405,13 +417,15 @@ class C08Session(Session):
         for var in self._variants(op, hits, calls, lines):
             w = world
             data_main = data
+            pre_v = pre
             if self.cfg.get("twin_mode") == "rebuild":
                 w = self._rebuild()
                 faults.INDEX_OF[0] = w.index
                 data = self._bind(w, op, data_main)
                 pre_w = snap_world(w, extra=data, strict_style=True)
-                if pre_w != pre:
+                if self._without_new_private(pre_w, pre) != self._without_new_private(pre, pre_w):
                     raise HarnessError("rebuilt twin differs from the main world: " + str(first_diff(pre, pre_w)))
+                pre_v = pre_w
             self._arm(var)
             try:
                 out, r, line = self._call(w, op, data, env_kind=var.get("what") if var["kind"] == "env" else None,
@@ -445,7 +459,7 @@ class C08Session(Session):
             self.transition("field", op["via"], op["field"], min(n_tiled, 3), label, did_fire, out.split(":")[0])
             what = "state_changed_after_call" if out == "ok" else "state_changed_after_failed_call"
             try:
-                self._compare(w, pre, data, what, op, var, out)
+                self._compare(w, pre_v, data, what, op, var, out)
                 # the fault is disarmed: the same call must give the baseline result
                 out2, r2, _ = self._call(w, op, data)
                 if (out2, r2) != (out0, r0):
@@ -453,7 +467,7 @@ class C08Session(Session):
                         "repeat_call_differs",
                         f"after [{label}] the same call gave {out2} / different values (baseline {out0})",
                         op="field", fault=label)
-                self._compare(w, pre, data, "state_changed_after_call" if out2 == "ok"
+                self._compare(w, pre_v, data, "state_changed_after_call" if out2 == "ok"
                               else "state_changed_after_failed_call", op, var, out2)
             except Violation as v:
                 v.narrow = {"faults": [var], "enumerate": None}
